@@ -336,5 +336,9 @@ def run(ctx):
     rule_close(ctx)
     rule_errors_close(ctx)
     rule_wrap(ctx)
+    # a truncated or malformed body must make the decoder RAISE (the reader task then dies and close() fails every waiter): the
+    # fixed-width primitives read exactly their width through struct (short read -> ValueError), shared with C11
+    from . import c11
+    c11.rule_codec_symmetry(ctx)
     rep.nd("byte-stream fragmentation (delegated to asyncio.StreamReader.readexactly)")
     rep.nd("ordering of timeouts relative to arrivals beyond the structural rule that abandoned requests are still popped")
